@@ -282,6 +282,7 @@ Section OneOracle2.
   Let Hn : d_notify_unsorted cfg = false. Proof. destruct Hclean as (H & _). exact H. Qed.
   Let Ht : d_timeout_child_order cfg = false. Proof. destruct Hclean as (_ & H & _). exact H. Qed.
   Let Hf : d_first_error_order cfg = false. Proof. destruct Hclean as (_ & _ & H & _). exact H. Qed.
+  Let Hpp' : d_proofs_prestage cfg = false. Proof. destruct Hclean as (_ & _ & _ & _ & _ & _ & _ & _ & H). exact H. Qed.
 
   Lemma begin_multi_id i w b g count f :
     begin_multi cfg o base h i w b g count f = begin_multi cfg o_id base h i w b g count f.
@@ -332,9 +333,10 @@ Section OneOracle2.
 
   Lemma exec_tx_id i inv v t : exec_tx cfg o base h i inv v t = exec_tx cfg o_id base h i inv v t.
   Proof.
-    unfold exec_tx. rewrite Hf. destruct inv; [reflexivity|].
-    destruct t; try reflexivity.
+    unfold exec_tx, do_ibtp. rewrite Hf, Hpp'. destruct inv; [reflexivity|].
+    destruct t; cbn [andb]; try reflexivity.
     - rewrite (pick_false o Hok), pick_false_id. reflexivity.
+    - rewrite handle_ibtp_id. reflexivity.
     - rewrite handle_ibtp_id. reflexivity.
     - rewrite handle_ibtp_id. reflexivity.
   Qed.
@@ -635,7 +637,8 @@ Section Pure.
   Let Hce : d_cache_failed_events cfg = false. Proof. destruct Hclean as (_ & _ & _ & _ & H & _). exact H. Qed.
   Let Hsi : d_singleton_mem cfg = false. Proof. destruct Hclean as (_ & _ & _ & _ & _ & H & _). exact H. Qed.
   Let Hsp : d_stale_persister cfg = false. Proof. destruct Hclean as (_ & _ & _ & _ & _ & _ & H & _). exact H. Qed.
-  Let Hfp : d_forgets_persister cfg = false. Proof. destruct Hclean as (_ & _ & _ & _ & _ & _ & _ & H). exact H. Qed.
+  Let Hfp : d_forgets_persister cfg = false. Proof. destruct Hclean as (_ & _ & _ & _ & _ & _ & _ & H & _). exact H. Qed.
+  Let Hpp : d_proofs_prestage cfg = false. Proof. destruct Hclean as (_ & _ & _ & _ & _ & _ & _ & _ & H). exact H. Qed.
 
   (** what a transaction does to the block's write set, computed without any node-local memory *)
   Definition tx_pure (i : N) (inv : bool) (w : smap val) (t : tx) : smap val * receipt :=
@@ -680,18 +683,12 @@ Section Pure.
     let '(v', r) := exec_tx cfg o base h i inv v t in
     (v_w v', r) = tx_pure i inv (v_w v) t /\ cache_ok base (v_cache v') (v_w v').
   Proof.
-    intro Hc. unfold tx_pure, exec_tx. rewrite Hf, Hce, Hsi, Hsp, Hfp. destruct inv; [split; [reflexivity|exact Hc]|].
-    destruct t as [ok|ok tch evs|site ids|c forgets ok| |valid b| |b]; cbn [andb orb]; rewrite ?andb_false_r.
-    - cbn [rc_ok rc_svc_events v_w v_cache]. split; [reflexivity|]. destruct (ok || false); exact Hc.
-    - cbn [rc_ok rc_svc_events v_w v_cache]. split; [reflexivity|].
-      destruct ok; cbn [orb].
-      + apply gov_cache_ok. exact Hc.
-      + exact Hc.
-    - destruct (pick o h false site i ids); cbn [rc_ok rc_svc_events v_w v_cache failed orb cache_store fold_left].
-      all: split; [reflexivity|exact Hc].
-    - cbn [rc_ok rc_svc_events v_w v_cache failed orb cache_store fold_left]. split; [reflexivity|]. destruct (ok || false); exact Hc.
-    - cbn [rc_ok rc_svc_events v_w v_cache failed orb]. split; [reflexivity|exact Hc].
-    - destruct valid.
+    intro Hc. unfold tx_pure, exec_tx. rewrite Hf, Hce, Hsi, Hsp, Hfp, Hpp. destruct inv; [split; [reflexivity|exact Hc]|].
+    assert (Hib : forall valid b,
+      let '(v', r) := do_ibtp cfg o base h i v valid b in
+      (v_w v', r) = (let '(v0, r0) := do_ibtp cfg o base h i (Build_view (v_w v) [] false []) valid b in (v_w v0, r0)) /\
+      cache_ok base (if rc_ok r || false then cache_store (v_cache v') (rc_svc_events r) else v_cache v') (v_w v')).
+    { intros valid b. unfold do_ibtp. destruct valid.
       + rewrite (handle_ibtp_cache cfg o base h i (v_cache v) (v_w v) b h Hc).
         cbn [v_w v_cache].
         pose proof (handle_ibtp_refines cfg o base h i [] (v_w v) b h) as Href.
@@ -702,7 +699,23 @@ Section Pure.
           -- eapply cache_ok_same; eassumption.
           -- intros e Hin. unfold ev_ok. rewrite (led_svc_same base _ _ (fst e) Hs). apply He. exact Hin.
         * eapply cache_ok_same; eassumption.
-      + cbn [rc_ok rc_svc_events v_w v_cache failed orb]. split; [reflexivity|exact Hc].
+      + cbn [rc_ok rc_svc_events v_w v_cache failed orb]. split; [reflexivity|exact Hc]. }
+    destruct t as [ok|ok tch evs|site ids|c forgets ok| |valid b|vnow vprev b| |b]; cbn [andb orb]; rewrite ?andb_false_r.
+    - cbn [rc_ok rc_svc_events v_w v_cache]. split; [reflexivity|]. destruct (ok || false); exact Hc.
+    - cbn [rc_ok rc_svc_events v_w v_cache]. split; [reflexivity|].
+      destruct ok; cbn [orb].
+      + apply gov_cache_ok. exact Hc.
+      + exact Hc.
+    - destruct (pick o h false site i ids); cbn [rc_ok rc_svc_events v_w v_cache failed orb cache_store fold_left].
+      all: split; [reflexivity|exact Hc].
+    - cbn [rc_ok rc_svc_events v_w v_cache failed orb cache_store fold_left]. split; [reflexivity|]. destruct (ok || false); exact Hc.
+    - cbn [rc_ok rc_svc_events v_w v_cache failed orb]. split; [reflexivity|exact Hc].
+    - specialize (Hib valid b). destruct (do_ibtp cfg o base h i v valid b) as [v' r].
+      destruct (do_ibtp cfg o base h i (Build_view (v_w v) [] false []) valid b) as [v0 r0].
+      destruct Hib as [E Hok']. inversion E; subst. cbn [v_w v_cache]. split; [reflexivity|exact Hok'].
+    - specialize (Hib vnow b). destruct (do_ibtp cfg o base h i v vnow b) as [v' r].
+      destruct (do_ibtp cfg o base h i (Build_view (v_w v) [] false []) vnow b) as [v0 r0].
+      destruct Hib as [E Hok']. inversion E; subst. cbn [v_w v_cache]. split; [reflexivity|exact Hok'].
     - cbn [rc_ok rc_svc_events v_w v_cache failed orb]. split; [reflexivity|exact Hc].
     - cbn [rc_ok rc_svc_events v_w v_cache failed orb]. split; [reflexivity|exact Hc].
   Qed.
@@ -999,17 +1012,17 @@ Qed.
 
 (* ------------------------------------------------------------------------------------- *)
 (** * Refutation witnesses: with a defect flag on, two admissible runs of one history differ *)
-Definition rev_oracle : oracle := Build_oracle (fun _ _ _ l => rev l) (fun _ l => rev l) (fun h n => h + n).
+Definition rev_oracle : oracle := Build_oracle (fun _ _ _ l => rev l) (fun _ l => rev l) (fun h n => h + n) (fun _ => true).
 Lemma rev_oracle_ok : oracle_ok rev_oracle.
 Proof. split; intros; cbn; apply Permutation_sym, Permutation_rev. Qed.
 Lemma o_id_ok : oracle_ok o_id.
 Proof. split; intros; cbn; apply Permutation_refl. Qed.
 
 Definition only (f : N) : Defects :=
-  Build_Defects (f =? 1) (f =? 2) (f =? 3) (f =? 4) (f =? 5) (f =? 6) (f =? 7) (f =? 8) false.
+  Build_Defects (f =? 1) (f =? 2) (f =? 3) (f =? 4) (f =? 5) (f =? 6) (f =? 7) (f =? 8) (f =? 9) false.
 
-Definition av : svcrec := Build_svcrec true true.
-Definition unav : svcrec := Build_svcrec false true.
+Definition av : svcrec := Build_svcrec true true [].
+Definition unav : svcrec := Build_svcrec false true [].
 (** services: chain 0 svc 0 = 0, chain 1 svc 0 = 16, chain 1 svc 1 = 17, chain 2 svc 0 = 32 *)
 Definition w_genesis : list (N * val) :=
   [(K_svc 0, VSvc av); (K_svc 16, VSvc av); (K_svc 17, VSvc av); (K_svc 32, VSvc av)].
@@ -1093,6 +1106,21 @@ Proof.
   exists w_genesis, w_forgets, never, before1.
   intro H. apply (f_equal (map r_receipts)) in H. vm_compute in H. discriminate.
 Qed.
+(** 9. proofs checked by the pre-execute stage: a replica that received two blocks back to back
+    verifies the second block's proofs before the first block's state changes exist *)
+Definition w_prestage : list block := [blk [TOpaque true]; blk [TIbtpP true false (Build_ibtp 0 16 1 0 0 None)]].
+Lemma proofs_prestage_refuted :
+  exists g bs o1 o2, oracle_ok o1 /\ oracle_ok o2 /\ run (only 9) o1 never g bs <> run (only 9) o2 never g bs.
+Proof.
+  exists w_genesis, w_prestage, o_id, rev_oracle. split; [apply o_id_ok|]. split; [apply rev_oracle_ok|].
+  intro H. apply (f_equal (map r_receipts)) in H. vm_compute in H. discriminate.
+Qed.
+(** a blacklisted source is answered begin_failure whatever the caches hold *)
+Definition w_black : list block :=
+  [blk [TGov true [1] [(16, Build_svcrec true true [0])]]; blk [TIbtp true (Build_ibtp 0 16 1 0 0 None); TIbtp true (Build_ibtp 32 16 1 0 0 None)]].
+Example fixed_blacklist_example :
+  map (fun r => map rc_begin_failure (r_receipts r)) (run cfg_fixed rev_oracle before1 w_genesis w_black) = [[]; [false]; [true; false]].
+Proof. vm_compute. reflexivity. Qed.
 Example fixed_forgets_example :
   map (fun r => map rc_ok (r_receipts r)) (run cfg_fixed o_id before1 w_genesis w_forgets) = [[]; [true]; [true]].
 Proof. vm_compute. reflexivity. Qed.
